@@ -1,4 +1,125 @@
-From Coq Require Import List.
-From Phil Require Import Base Tree PyVal ConvText Extract.
-Theorem C18_placeholder : True. Proof. exact I. Qed.
-Print Assumptions C18_placeholder.
+(* C18 - Extracted parameter objects are guarded, self-describing and detached.
+   Only property theorems here (each closed by [exact] of a lemma of Proofs/ExtractGuard.v / ExtractPath.v).
+   Model functions (executed by the correspondence stream through EntryExtract.v):
+     extract_obj     scope.extract with __phil_set__ / __phil_join__
+     reach           every scope_extract of a value with the names of its enclosing extracts (the parent chain)
+                     and the field path leading to it
+     phil_path       scope_extract.__phil_path__(object_name)
+     setattr, inject scope_extract.__setattr__ / __inject__  (GOk = attribute set, GRefuse p = AttributeError spelling p)
+   Detachment (no aliasing between extracted values and the tree) is not expressible on values: the stream checks it
+   on the implementation. *)
+From Coq Require Import List Ascii String Bool Arith ZArith.
+From Phil Require Import Base Tokenizer Tree PyVal ConvText Extract ExtractGuard ExtractPath.
+From Phil Require Conv Parser.
+Import ListNotations.
+Local Open Scope char_scope.
+
+(* ------------------------------------------------------------------ self-describing *)
+(* Extraction of a root scope whose scopes have non-empty names (the parser guarantees it): every reachable
+   scope_extract - each element of every multiple scope included - reports the dotted path of the fields leading
+   to it, and that path plus ".f" for each of its own fields f. *)
+Theorem C18_path : forall pe ex h ks a v,
+  oname h = [] -> names_nonempty (Scp h ks a) -> extract_obj pe ex (Scp h ks a) = Ok v ->
+  Forall node_ok (reach [] [] v).
+Proof. exact extract_paths. Qed.
+Print Assumptions C18_path.
+
+(* the invariant behind it: every extract is stored under the key that is its own name - also after __phil_join__
+   merged several same-named scopes and inside every scope_extract_list *)
+Theorem C18_named : forall pe ex t v, names_nonempty t -> extract_obj pe ex t = Ok v ->
+  named v /\ (forall h ks a, t = Scp h ks a -> exists fs, v = VScope (Ext (oname h) fs)).
+Proof. exact extract_named. Qed.
+Print Assumptions C18_named.
+
+(* on any value with that invariant, whatever the position it is attached at *)
+Theorem C18_path_general : forall v anc path, named v -> Forall (fun k => k <> []) path ->
+  Forall (top_ok anc path) (tops v) -> Forall node_ok (reach anc path v).
+Proof. exact reach_ok. Qed.
+Print Assumptions C18_path_general.
+
+(* ------------------------------------------------------------------ guarded *)
+(* assignment to a field succeeds and replaces the value *)
+Theorem C18_guard_field : forall anc n fs name v x,
+  fget name fs = Some x -> setattr anc (Ext n fs) name v = GOk (Ext n (fset name v fs)).
+Proof. exact setattr_field. Qed.
+Print Assumptions C18_guard_field.
+
+(* for every name that is not an attribute of the class: assignment succeeds iff the name is a field *)
+Theorem C18_guard : forall anc e name v, builtin_attr name = false ->
+  ((exists e', setattr anc e name v = GOk e') <-> In name (fkeys (ext_fields e))).
+Proof. exact setattr_iff. Qed.
+Print Assumptions C18_guard.
+
+(* names of class attributes / bookkeeping entries are found by getattr: never refused by the guard *)
+Theorem C18_guard_class_attrs : forall anc n fs name v p,
+  builtin_attr name = true -> setattr anc (Ext n fs) name v <> GRefuse p.
+Proof. exact setattr_builtin_not_refused. Qed.
+Print Assumptions C18_guard_class_attrs.
+
+(* at every node of an extraction: an undeclared name is refused with the full dotted path (and can be injected);
+   an existing name is assignable, and injecting it is refused with the full dotted path *)
+Theorem C18_guard_path : forall pe ex h ks a v,
+  oname h = [] -> names_nonempty (Scp h ks a) -> extract_obj pe ex (Scp h ks a) = Ok v ->
+  forall anc path e, In (anc, path, e) (reach [] [] v) ->
+  forall name x,
+    (fget name (ext_fields e) = None -> builtin_attr name = false ->
+       setattr anc e name x = GRefuse (join_dot (path ++ [name]))
+       /\ exists e', inject anc e name x = GOk e')
+    /\ (forall y, fget name (ext_fields e) = Some y ->
+         inject anc e name x = GRefuse (join_dot (path ++ [name]))
+         /\ exists e', setattr anc e name x = GOk e').
+Proof. exact extract_guard_paths. Qed.
+Print Assumptions C18_guard_path.
+
+(* ------------------------------------------------------------------ inject once *)
+Theorem C18_inject_once : forall anc n fs name v,
+  fget name fs = None -> builtin_attr name = false ->
+  inject anc (Ext n fs) name v = GOk (Ext n (fset name v fs))
+  /\ fget name (fset name v fs) = Some v
+  /\ (forall v', inject anc (Ext n (fset name v fs)) name v' = refuse anc n name)
+  /\ (forall v', setattr anc (Ext n (fset name v fs)) name v' = GOk (Ext n (fset name v' (fset name v fs)))).
+Proof. exact inject_fresh. Qed.
+Print Assumptions C18_inject_once.
+
+Theorem C18_inject_refuses_existing : forall anc n fs name v x,
+  fget name fs = Some x -> inject anc (Ext n fs) name v = refuse anc n name.
+Proof. exact inject_existing. Qed.
+Print Assumptions C18_inject_refuses_existing.
+
+(* ------------------------------------------------------------------ declared parameters are assignable *)
+(* every object of a scope that is not a hidden template (is_template < 0: the copy scope.format puts in front of the
+   instances of a multiple scope) gives the extracted node an attribute of its name - a disabled object and a
+   visible template (is_template > 0) too: the value is None, or an empty list for .multiple *)
+Theorem C18_declared_are_fields : forall pe ex h ks a n fs,
+  extract_obj pe ex (Scp h ks a) = Ok (VScope (Ext n fs)) ->
+  forall k, In k ks -> (0 <= otmpl (ohdr k))%Z -> In (oname (ohdr k)) (fkeys fs).
+Proof. exact declared_are_fields. Qed.
+Print Assumptions C18_declared_are_fields.
+
+Theorem C18_declared_assignable : forall pe ex h ks a e anc v,
+  extract_obj pe ex (Scp h ks a) = Ok (VScope e) ->
+  forall k, In k ks -> (0 <= otmpl (ohdr k))%Z -> exists e', setattr anc e (oname (ohdr k)) v = GOk e'.
+Proof. exact declared_assignable. Qed.
+Print Assumptions C18_declared_assignable.
+
+(* attributes are never lost: __phil_set__ and __phil_join__ only add keys *)
+Theorem C18_keys_grow : forall fs name opt mult value fs',
+  phil_set fs name opt mult value = Ok fs' -> incl (fkeys fs) (fkeys fs') /\ In name (fkeys fs').
+Proof. exact phil_set_keys. Qed.
+Print Assumptions C18_keys_grow.
+
+(* ------------------------------------------------------------------ non-vacuity *)
+Definition ex_tree : obj :=
+  Scp (plain_hdr []) [
+    Def (plain_hdr (s_ "a")) [uw (s_ "1")] [];
+    Scp (plain_hdr (s_ "s")) [Def (plain_hdr (s_ "b")) [uw (s_ "2")] []] [(s_ "multiple", ABool true)];
+    Scp (plain_hdr (s_ "s")) [Scp (plain_hdr (s_ "t")) [Def (plain_hdr (s_ "c")) [uw (s_ "3")] []] []] [(s_ "multiple", ABool true)]] [].
+Example C18_example :
+  names_nonempty ex_tree /\
+  exists v, extract_obj (fun _ => None) (fun s => s) ex_tree = Ok v
+            /\ map (fun nd => join_dot (snd (fst nd))) (reach [] [] v) = [[]; s_ "s"; s_ "s"; s_ "s.t"].
+Proof.
+  split.
+  - cbn. repeat split; discriminate.
+  - eexists. split; [vm_compute; reflexivity|]. vm_compute. reflexivity.
+Qed.
